@@ -33,7 +33,7 @@ def c17(ck, replay=None):
     ck.sensitive('two consumers both add the extra end marker (D14)', 'IterableQueue',
                  iq_cfg(2, 2, 1, 2, 0, ['CleanStart'], extra_once=False), 'invariant', 'CleanStart')
     rnd = random.Random(ck.seed * 1000003 + 59)
-    scs = IB.gen_scenarios(rnd, 200 if thorough else 50)
+    scs = IB.gen_scenarios(rnd, 600 if thorough else 50)
     items, n = [], 0
     for sc in scs:
         for j in range(8 if thorough else 5):
@@ -63,7 +63,7 @@ def c17(ck, replay=None):
     # to see the bottom") steer the real suppliers / consumers; the executions are validated like the others
     consts = dict(M=2, NC=2, K=1, Rounds=2, QBound=0)
     l2cfg = iq_cfg(2, 2, 1, 2, 0, [])
-    res, behs = tlc.simulate('IterableQueue', l2cfg, num=200 if thorough else 40, depth=120, seed=1 + ck.seed)
+    res, behs = tlc.simulate('IterableQueue', l2cfg, num=600 if thorough else 40, depth=120, seed=1 + ck.seed)
     behs = list(behs)
     for goal in ('Trap_TwoSeeFull', 'Trap_Round2'):
         behs.append(ck.trap(goal, 'IterableQueue', iq_cfg(2, 2, 1, 2, 0, [goal])))
@@ -92,7 +92,7 @@ def c17(ck, replay=None):
     # suppliers and consumers in separate PROCESSES over multiprocessing queues (the object travels by pickle): per-process
     # event sequences, TLC searches for the interleaving
     from mbt.bind import iterqueue_proc as IP
-    pitems = [{'id': i + 1, 'sc': sc} for i, sc in enumerate(IP.gen_scenarios(rnd, 160 if thorough else 24))]
+    pitems = [{'id': i + 1, 'sc': sc} for i, sc in enumerate(IP.gen_scenarios(rnd, 400 if thorough else 24))]
     pout = ck.run_binder('iterqueue_proc', pitems, nproc=8, per_job=4, timeout=900, extra={'detsched': False})
     ck.evaluations += int(pout.get('n_exec', 0))
     for h in pout.get('hangs', []):
